@@ -37,6 +37,9 @@ def grids():
     out.append({"kind": "sph", "n": 12, "R": 12.0})
     for pz in (False, True):
         out.append({"kind": "cyl", "shape": [8, 16], "R": 8.0, "z": [0.0, 16.0], "periodic_z": pz})
+    # periodic cylinders whose bounds are not exactly representable (the period carries round-off); used with the 'seam' image
+    for z in ([0.3, 6.3], [-0.7, 5.3], [0.1, 5.6]):
+        out.append({"kind": "cyl", "shape": [8, 20], "R": 8.0, "z": z, "periodic_z": True, "seam": True})
     return out
 
 
@@ -110,7 +113,7 @@ def cases(block):
             yield {"grid": block["grid"], "modes": block["modes"], "refine": block["refine"], "width": w, "rule": 0.5, "image": "two", "form": form}
     for w in (WIDTHS + [0.4] if thorough else WIDTHS):
         for rule in (RULES + ["extrema", 0.3] if thorough else RULES):
-            for img in IMAGES:
+            for img in (IMAGES if not block["grid"].get("seam") else ["seam"]):
                 for nproc in ((1, 2) if (thorough and block["refine"]) else (1,)):
                     c = {"grid": block["grid"], "modes": block["modes"], "refine": block["refine"], "width": w, "rule": rule, "image": img}
                     if nproc > 1:
@@ -132,7 +135,14 @@ def field_for(g, img):
     grid = geom.make_grid(g)
     dim = grid.dim
     kind = g["kind"]
-    if img == "empty":
+    if img == "seam":
+        # a body of revolution centred EXACTLY on the periodic z boundary (mirror-symmetric about it)
+        data = np.zeros(grid.shape)
+        data[:3, :3] = 1.0
+        data[:3, -3:] = 1.0
+        data[:2, 3] = data[:2, -4] = 0.6
+        n = 1
+    elif img == "empty":
         data = np.zeros(grid.shape)
         n = 0
     else:
